@@ -156,6 +156,10 @@ class Unit:
                 protos.append(lsig + ';'); bodies.append((fname, lsig + '\n' + lbody))
         for key in self.spec.loops:
             if key[0] in [b[0] for b in bodies] and key not in em.used_loop_contracts and key[0] not in self.spec.opaque and key[0] not in self.spec.drop:
+                if getattr(em, 'loop_counts', {}).get(key[0], 1) == 0 and key[1] != 'dispatch':
+                    # the function has no loop at all any more: its loop contract is moot, the function contract decides
+                    self.notes = getattr(self, 'notes', []) + [f'loop contract {key} unused: {key[0]} is loop-free in this tree']
+                    continue
                 raise Abort(f'loop contract {key} does not match any loop (loop ordinal changed)')
         virt = self.virtuals(protos)
         # the dispatchers may have pulled in more functions
